@@ -100,3 +100,45 @@ Proof.
   - apply wf_viewb_spec. vm_compute. reflexivity.
   - eexists. split; [vm_compute; reflexivity|]. split; vm_compute; reflexivity.
 Qed.
+
+(* END TO END (Proofs/E2E*.v).  `hview W e json h` is what a renderer sees after
+   the history h of public-API calls (Model/Table.v: building calls in any
+   interleaving plus column property settings) over ARBITRARY items
+   (Model/Cell.v); `twf_hist h`: the building calls form a well-formed history
+   (Spec/History.v).  hist_header / hist_rows / hist_records / hist_ncols are
+   read off the history alone (Spec/TableHist.v); documented_text is C01's
+   text form (Spec/CellText.v). *)
+From Tab Require Import Model.Cell Model.Table Spec.TableHist Spec.CellText Proofs.E2EProofs.
+From Tab Require Import Proofs.E2EMd.
+
+(* Structure and neutralisation for every table a history can build; it is
+   refused exactly when the history has no header or no column. *)
+Theorem c08_history : forall (W : list N -> nat) (e : env) (json : item -> option (list N)) (h : list top),
+  twf_hist h ->
+  let v := hview W e json h in
+  match md_render W v with
+  | Ok out => md_ok v out
+  | Err => hist_header h = None \/ hist_ncols h = 0%nat
+  | Panic => False
+  end.
+Proof. exact md_history. Qed.
+Print Assumptions c08_history.
+
+(* the texts md_ok compares the trimmed, decoded cells with are the documented
+   texts of the items the history put there *)
+Theorem c08_history_texts : forall W e json (h : list top), twf_hist h ->
+  header_texts (hview W e json h) = match hist_header h with Some xs => map (documented_text e) xs | None => [] end
+  /\ body_texts (hview W e json h)
+     = map (map (documented_text e)) (flat_map (fun r => match r with Some xs => [xs] | None => [] end) (hist_rows h)).
+Proof. exact md_history_texts. Qed.
+Print Assumptions c08_history_texts.
+
+
+(* the alignment markers md_ok demands of delimiter cell i: the column's own
+   latest setting, else the latest default set on column 0 *)
+Theorem c08_history_alignment : forall W e json (h : list top) i,
+  twf_hist h -> (i < hist_ncols h)%nat ->
+  spec_eff_align (v_align (hview W e json h)) i
+  = match hist_align h (S i) with Some a => Some a | None => hist_align h 0%nat end.
+Proof. exact md_history_alignment. Qed.
+Print Assumptions c08_history_alignment.
